@@ -1,17 +1,29 @@
 (* Proofs/TunnelRace.v — every interleaving of any number of concurrent TunnelOpen requests (Model/TunnelRace.v). *)
 From TX Require Import Base.Threads Model.TunnelOpen Proofs.TunnelOpen Model.TunnelRace.
-From Coq Require Import List NArith Bool.
+From Coq Require Import List NArith Bool Lia ZArith ZifyN ZifyNat ZifyBool.
 Import ListNotations.
 Open Scope N_scope.
 
 Definition sh_inv (sh : shared) : Prop :=
   (forall cr t, rholds sh cr t -> In (cr, t) (map fst (sh_log sh))) /\
-  (forall e, In e (sh_log sh) -> snd e = true).
+  (forall e, In e (sh_log sh) -> snd e = true) /\
+  (forall t, sh_tun sh t <> None -> sh_id sh t < sh_next sh).       (* identities of registered bridge objects are below the counter *)
 
-Definition lo_inv (d : db) (lo : rlocal) : Prop :=
-  l_pc lo = PcAttach -> c_registered (l_conn lo) = true /\ validate current d (c_client (l_conn lo)) (l_req lo) = true.
+(* what a request that passed the agreement test on bridge object g (registered under t) may rely on later: IF that very
+   object is still registered under t, it belongs to mapping m *)
+Definition claim (g : N) (t : tid) (m : mid) (sh : shared) : Prop :=
+  g < sh_next sh /\ forall b, sh_tun sh t = Some b -> sh_id sh t = g -> b_mid b = m.
 
-Definition rinv (d : db) (s : rstate) : Prop := sh_inv (fst s) /\ Forall (lo_inv d) (snd s).
+Definition lo_inv (d : db) (sh : shared) (lo : rlocal) : Prop :=
+  match l_pc lo with
+  | PcAttach => c_registered (l_conn lo) = true /\ validate current d (c_client (l_conn lo)) (l_req lo) = true
+  | PcAttachExisting =>
+      c_registered (l_conn lo) = true /\ validate current d (c_client (l_conn lo)) (l_req lo) = true /\
+      claim (l_gen lo) (r_tid (l_req lo)) (r_mid (l_req lo)) sh
+  | _ => True
+  end.
+
+Definition rinv (d : db) (s : rstate) : Prop := sh_inv (fst s) /\ Forall (lo_inv d (fst s)) (snd s).
 
 Lemma Forall_upd_nth : forall {A} (P : A -> Prop) i x l, Forall P l -> P x -> Forall P (upd_nth i x l).
 Proof.
@@ -20,58 +32,155 @@ Proof.
   - inversion Hl; subst. constructor; [assumption | apply IH; assumption].
 Qed.
 
-(* wiring connection cr into the bridge registered under t, with a log entry that says "entitled" *)
-Lemma sh_inv_attach :
-  forall sh t b' cr,
-    sh_inv sh ->
+(* wiring connection cr into the bridge object registered under t (identity unchanged), logged as entitled *)
+Lemma sh_inv_put :
+  forall sh t b0 b' cr,
+    sh_inv sh -> sh_tun sh t = Some b0 ->
     (forall x, b_src b' = Some x \/ b_tgt b' = Some x -> x = cr \/ rholds sh x t) ->
-    sh_inv {| sh_tun := upd (sh_tun sh) t (Some b'); sh_log := (cr, t, true) :: sh_log sh |}.
+    sh_inv (put sh t b' (cr, t, true)).
 Proof.
-  intros sh t b' cr [Hh Hl] Hb. split.
-  - intros x t' [b0 [Hb0 Hor]]. cbn [sh_tun sh_log map fst] in *. unfold upd in Hb0.
+  intros sh t b0 b' cr [Hh [Hl Hid]] Hb0 Hb. split; [|split].
+  - intros x t' [b1 [Hb1 Hor]]. cbn [put sh_tun sh_log map fst] in *. unfold upd in Hb1.
     destruct (N.eqb t' t) eqn:Ht.
-    + apply N.eqb_eq in Ht. subst t'. injection Hb0 as <-.
+    + apply N.eqb_eq in Ht. subst t'. injection Hb1 as <-.
       destruct (Hb x Hor) as [-> | Hold]; [left; reflexivity | right; apply Hh; exact Hold].
-    + right. apply Hh. exists b0. split; assumption.
+    + right. apply Hh. exists b1. split; assumption.
   - intros e [<- | Hin]; [reflexivity | apply Hl; exact Hin].
+  - intros t' Hne. cbn [put sh_tun sh_id sh_next] in *. unfold upd in Hne.
+    destruct (N.eqb t' t) eqn:Ht.
+    + apply N.eqb_eq in Ht. subst t'. apply Hid. rewrite Hb0. discriminate.
+    + apply Hid. exact Hne.
+Qed.
+
+(* registering a NEW bridge object under a free tunnel id *)
+Lemma sh_inv_register :
+  forall sh t b' cr,
+    sh_inv sh -> sh_tun sh t = None ->
+    (forall x, b_src b' = Some x \/ b_tgt b' = Some x -> x = cr) ->
+    sh_inv (register sh t b' (cr, t, true)).
+Proof.
+  intros sh t b' cr [Hh [Hl Hid]] Hn Hb. split; [|split].
+  - intros x t' [b1 [Hb1 Hor]]. cbn [register sh_tun sh_log map fst] in *. unfold upd in Hb1.
+    destruct (N.eqb t' t) eqn:Ht.
+    + apply N.eqb_eq in Ht. subst t'. injection Hb1 as <-. rewrite (Hb x Hor). left. reflexivity.
+    + right. apply Hh. exists b1. split; assumption.
+  - intros e [<- | Hin]; [reflexivity | apply Hl; exact Hin].
+  - intros t' Hne. cbn [register sh_tun sh_id sh_next] in *. unfold upd in Hne.
+    destruct (N.eqb t' t) eqn:Ht.
+    + lia.
+    + specialize (Hid t' Hne). lia.
+Qed.
+
+Lemma sh_inv_end :
+  forall sh t, sh_inv sh ->
+    sh_inv {| sh_tun := upd (sh_tun sh) t None; sh_id := sh_id sh; sh_next := sh_next sh; sh_log := sh_log sh |}.
+Proof.
+  intros sh t [Hh [Hl Hid]]. split; [|split].
+  - intros x t' [b1 [Hb1 Hor]]. cbn [sh_tun sh_log] in *. unfold upd in Hb1.
+    destruct (N.eqb t' t); [discriminate|]. apply Hh. exists b1. split; assumption.
+  - exact Hl.
+  - intros t' Hne. cbn [sh_tun sh_id sh_next] in *. unfold upd in Hne.
+    destruct (N.eqb t' t); [contradiction Hne; reflexivity | apply Hid; exact Hne].
+Qed.
+
+(* a claim survives every atomic action of every thread, in every variant: an object keeps its mapping while it is registered,
+   and an object registered later has a fresh identity *)
+Lemma rstep_keeps_claim :
+  forall rv d lo sh g t m,
+    (forall t', sh_tun sh t' <> None -> sh_id sh t' < sh_next sh) ->
+    claim g t m sh -> claim g t m (snd (rstep rv d lo sh)).
+Proof.
+  intros rv d lo sh g t m Hid [Hg Hc].
+  assert (Hsame : claim g t m sh) by (split; assumption).
+  assert (Hput : forall b0 bn e, sh_tun sh (r_tid (l_req lo)) = Some b0 -> b_mid bn = b_mid b0 ->
+            claim g t m (put sh (r_tid (l_req lo)) bn e)).
+  { intros b0 bn e Hb0 Hmid. split; [exact Hg|]. intros b Hb Hi. cbn [put sh_tun sh_id] in *. unfold upd in Hb.
+    destruct (N.eqb t (r_tid (l_req lo))) eqn:Ht.
+    - apply N.eqb_eq in Ht. subst t. injection Hb as <-. rewrite Hmid. apply Hc; assumption.
+    - apply Hc; assumption. }
+  assert (Hreg : forall bn e, sh_tun sh (r_tid (l_req lo)) = None -> claim g t m (register sh (r_tid (l_req lo)) bn e)).
+  { intros bn e Hn. split; [cbn [register sh_next]; lia|]. intros b Hb Hi. cbn [register sh_tun sh_id] in *. unfold upd in Hb.
+    destruct (N.eqb t (r_tid (l_req lo))) eqn:Ht.
+    - lia.
+    - apply Hc; assumption. }
+  unfold rstep. destruct (l_pc lo); cbn [snd]; try exact Hsame.
+  - (* PcLookup *)
+    destruct (negb (c_registered (l_conn lo))); [exact Hsame|].
+    destruct (negb (validate current d (c_client (l_conn lo)) (l_req lo))); [exact Hsame|].
+    destruct (sh_tun sh (r_tid (l_req lo))) as [b0|]; [|exact Hsame].
+    destruct (N.eqb (b_mid b0) (r_mid (l_req lo))); exact Hsame.
+  - (* PcAttachExisting *)
+    destruct (sh_tun sh (r_tid (l_req lo))) as [b0|] eqn:Hb0; [|exact Hsame].
+    destruct (refetch_existing rv || N.eqb (sh_id sh (r_tid (l_req lo))) (l_gen lo)); cbn [snd]; [|exact Hsame].
+    apply (Hput b0); [reflexivity|]. unfold wire. destruct (existing d (l_req lo)); reflexivity.
+  - (* PcAttach *)
+    destruct (is_listen d (l_conn lo) (l_req lo)).
+    + destruct (sh_tun sh (r_tid (l_req lo))) as [b0|] eqn:Hb0.
+      * destruct (source_reattach rv); cbn [snd]; [|exact Hsame]. apply (Hput b0); reflexivity.
+      * cbn [snd]. apply Hreg. reflexivity.
+    + destruct (sh_tun sh (r_tid (l_req lo))) as [b0|] eqn:Hb0; [|exact Hsame].
+      destruct (late_agree rv && negb (N.eqb (b_mid b0) (r_mid (l_req lo)))); cbn [snd]; [exact Hsame|].
+      apply (Hput b0); reflexivity.
+  - (* PcEnd *)
+    split; [exact Hg|]. intros b Hb Hi. cbn [sh_tun sh_id] in *. unfold upd in Hb.
+    destruct (N.eqb t (r_tid (l_req lo))); [discriminate | apply Hc; assumption].
+Qed.
+
+Lemma lo_inv_mono :
+  forall d sh sh' lo,
+    (forall g t m, claim g t m sh -> claim g t m sh') -> lo_inv d sh lo -> lo_inv d sh' lo.
+Proof.
+  intros d sh sh' lo Hm H. unfold lo_inv in *. destruct (l_pc lo); try exact H.
+  destruct H as [Hr [Hv Hc]]. split; [exact Hr|]. split; [exact Hv | apply Hm; exact Hc].
 Qed.
 
 Lemma rstep_inv :
-  forall d lo sh, sh_inv sh -> lo_inv d lo ->
-    sh_inv (snd (rstep fixed_variant d lo sh)) /\ lo_inv d (fst (rstep fixed_variant d lo sh)).
+  forall d lo sh, sh_inv sh -> lo_inv d sh lo ->
+    sh_inv (snd (rstep fixed_variant d lo sh)) /\ lo_inv d (snd (rstep fixed_variant d lo sh)) (fst (rstep fixed_variant d lo sh)).
 Proof.
-  intros d lo sh Hsh Hlo. unfold rstep.
+  intros d lo sh Hsh Hlo. pose proof Hsh as [Hh [Hl Hid]]. unfold rstep.
   destruct (l_pc lo) eqn:Hpc.
   - (* PcLookup *)
-    destruct (c_registered (l_conn lo)) eqn:Hreg; cbn [negb]; [|split; [exact Hsh | intro H; discriminate H]].
-    destruct (validate current d (c_client (l_conn lo)) (l_req lo)) eqn:Hv; cbn [negb]; [|split; [exact Hsh | intro H; discriminate H]].
-    pose proof (validate_current_entitled d (l_conn lo) (l_req lo) Hreg Hv) as Hok.
+    destruct (c_registered (l_conn lo)) eqn:Hreg; cbn [negb]; [|split; [exact Hsh | exact I]].
+    destruct (validate current d (c_client (l_conn lo)) (l_req lo)) eqn:Hv; cbn [negb]; [|split; [exact Hsh | exact I]].
     destruct (sh_tun sh (r_tid (l_req lo))) as [b|] eqn:Hb.
-    + destruct (N.eqb (b_mid b) (r_mid (l_req lo))) eqn:Hm; cbn [fst snd]; [|split; [exact Hsh | intro H; discriminate H]].
-      rewrite Hok. cbn [andb]. split; [|intro H; discriminate H].
-      apply sh_inv_attach; [exact Hsh|].
-      intros x Hx. destruct (existing d (l_req lo)); cbn [b_src b_tgt] in Hx;
-        destruct Hx as [Hx | Hx];
-        first [ injection Hx as <-; left; reflexivity
-              | right; exists b; split; [exact Hb | (left; exact Hx) || (right; exact Hx)] ].
-    + cbn [fst snd]. split; [exact Hsh|]. intros _. cbn [set_pc l_conn l_req]. split; assumption.
+    + destruct (N.eqb (b_mid b) (r_mid (l_req lo))) eqn:Hm; cbn [fst snd]; [|split; [exact Hsh | exact I]].
+      split; [exact Hsh|]. unfold lo_inv. cbn [set_pc_gen l_pc l_conn l_req l_gen].
+      split; [exact Hreg|]. split; [exact Hv|]. split.
+      * apply Hid. rewrite Hb. discriminate.
+      * intros b1 Hb1 _. rewrite Hb in Hb1. injection Hb1 as <-. apply N.eqb_eq. exact Hm.
+    + cbn [fst snd]. split; [exact Hsh|]. unfold lo_inv. cbn [set_pc l_pc l_conn l_req]. split; assumption.
+  - (* PcAttachExisting *)
+    unfold lo_inv in Hlo. rewrite Hpc in Hlo. destruct Hlo as [Hreg [Hv [Hg Hc]]].
+    pose proof (validate_current_entitled d (l_conn lo) (l_req lo) Hreg Hv) as Hok.
+    destruct (sh_tun sh (r_tid (l_req lo))) as [b|] eqn:Hb; [|split; [exact Hsh | exact I]].
+    cbn [fixed_variant refetch_existing orb].
+    destruct (N.eqb (sh_id sh (r_tid (l_req lo))) (l_gen lo)) eqn:Hi; cbn [fst snd]; [|split; [exact Hsh | exact I]].
+    apply N.eqb_eq in Hi. rewrite (Hc b eq_refl Hi), N.eqb_refl, Hok. cbn [andb].
+    split; [|exact I].
+    apply (sh_inv_put sh _ b); [exact Hsh | exact Hb |].
+    intros x Hx. unfold wire in Hx. destruct (existing d (l_req lo)); cbn [b_src b_tgt] in Hx;
+      destruct Hx as [Hx | Hx];
+      first [ injection Hx as <-; left; reflexivity
+            | right; exists b; split; [exact Hb | (left; exact Hx) || (right; exact Hx)] ].
   - (* PcAttach *)
-    destruct (Hlo Hpc) as [Hreg Hv].
+    unfold lo_inv in Hlo. rewrite Hpc in Hlo. destruct Hlo as [Hreg Hv].
     pose proof (validate_current_entitled d (l_conn lo) (l_req lo) Hreg Hv) as Hok.
     destruct (is_listen d (l_conn lo) (l_req lo)).
     + destruct (sh_tun sh (r_tid (l_req lo))) as [b|] eqn:Hb; cbn [fixed_variant source_reattach fst snd].
-      * split; [exact Hsh | intro H; discriminate H].
-      * rewrite Hok. split; [|intro H; discriminate H].
-        apply sh_inv_attach; [exact Hsh|].
-        intros x [Hx | Hx]; cbn [b_src b_tgt] in Hx; [injection Hx as <-; left; reflexivity | discriminate].
-    + destruct (sh_tun sh (r_tid (l_req lo))) as [b|] eqn:Hb; cbn [fst snd]; [|split; [exact Hsh | intro H; discriminate H]].
+      * split; [exact Hsh | exact I].
+      * rewrite Hok. split; [|exact I].
+        apply sh_inv_register; [exact Hsh | exact Hb |].
+        intros x [Hx | Hx]; cbn [b_src b_tgt] in Hx; [injection Hx as <-; reflexivity | discriminate].
+    + destruct (sh_tun sh (r_tid (l_req lo))) as [b|] eqn:Hb; cbn [fst snd]; [|split; [exact Hsh | exact I]].
       cbn [fixed_variant late_agree andb].
-      destruct (N.eqb (b_mid b) (r_mid (l_req lo))) eqn:Hm; cbn [negb fst snd]; [|split; [exact Hsh | intro H; discriminate H]].
-      rewrite Hok. cbn [andb]. split; [|intro H; discriminate H].
-      apply sh_inv_attach; [exact Hsh|].
+      destruct (N.eqb (b_mid b) (r_mid (l_req lo))) eqn:Hm; cbn [negb fst snd]; [|split; [exact Hsh | exact I]].
+      rewrite Hok. cbn [andb]. split; [|exact I].
+      apply (sh_inv_put sh _ b); [exact Hsh | exact Hb |].
       intros x [Hx | Hx]; cbn [b_src b_tgt] in Hx.
       * right. exists b. split; [exact Hb | left; exact Hx].
       * injection Hx as <-. left. reflexivity.
+  - (* PcEnd *) cbn [fst snd]. split; [apply sh_inv_end; exact Hsh | exact I].
   - (* PcDone *) cbn [fst snd]. split; assumption.
 Qed.
 
@@ -79,77 +188,99 @@ Lemma sys_step_inv : forall d s i, rinv d s -> rinv d (sys_step shared rlocal (r
 Proof.
   intros d [sh ths] i [Hsh Hths]. unfold sys_step. cbn [fst snd] in *.
   destruct (nth_error ths i) as [lo|] eqn:Hn; [|split; assumption].
-  assert (Hlo : lo_inv d lo).
+  assert (Hlo : lo_inv d sh lo).
   { rewrite Forall_forall in Hths. apply Hths. eapply nth_error_In. exact Hn. }
   pose proof (rstep_inv d lo sh Hsh Hlo) as [H1 H2].
+  destruct Hsh as [_ [_ Hid]].
+  pose proof (fun g t m => rstep_keeps_claim fixed_variant d lo sh g t m Hid) as Hmono.
   destruct (rstep fixed_variant d lo sh) as [lo' sh']. cbn [fst snd] in *.
-  split; [exact H1 | apply Forall_upd_nth; assumption].
+  split; [exact H1|]. apply Forall_upd_nth; [|exact H2].
+  rewrite Forall_forall in *. intros l Hin. apply (lo_inv_mono d sh sh'); [exact Hmono | apply Hths; exact Hin].
 Qed.
 
-Lemma rinit_inv : forall d ths, Forall (fun lo => l_pc lo = PcLookup) ths -> rinv d (rinit ths).
+(* initial threads: requests at their lookup, and "bridge ends" actions *)
+Definition starts (lo : rlocal) : Prop := l_pc lo = PcLookup \/ l_pc lo = PcEnd.
+
+Lemma rinit_inv : forall d ths, Forall starts ths -> rinv d (rinit ths).
 Proof.
   intros d ths H. split.
-  - split.
+  - split; [|split].
     + intros cr t [b [Hb _]]. cbn in Hb. discriminate.
     + intros e He. cbn in He. contradiction.
-  - cbn [rinit snd]. rewrite Forall_forall in *. intros lo Hin Hpc. rewrite (H lo Hin) in Hpc. discriminate.
+    + intros t Hne. cbn in Hne. contradiction Hne. reflexivity.
+  - cbn [rinit snd fst]. rewrite Forall_forall in *. intros lo Hin. unfold lo_inv.
+    destruct (H lo Hin) as [-> | ->]; exact I.
 Qed.
 
-(* ALL schedules of ANY number of concurrent requests: whoever is wired into a bridge got there through an attachment
-   that was entitled to THAT bridge's mapping *)
+(* ALL schedules of ANY number of concurrent requests and bridge endings: whoever is wired into a REGISTERED bridge got there
+   through an attachment that was entitled to THAT bridge's mapping — an attach uses the bridge object that passed the
+   agreement test at lookup, or re-tests *)
 Lemma race_attach_implies_entitled :
   forall d ths sched cr t,
-    Forall (fun lo => l_pc lo = PcLookup) ths ->
+    Forall starts ths ->
     rholds (fst (rrun fixed_variant d (rinit ths) sched)) cr t ->
     In (cr, t, true) (sh_log (fst (rrun fixed_variant d (rinit ths) sched))).
 Proof.
   intros d ths sched cr t Hths H.
   pose proof (inv_all_schedules shared rlocal (rstep fixed_variant d) (rinv d) (sys_step_inv d) sched (rinit ths) (rinit_inv d ths Hths))
-    as [[Hh Hl] _].
+    as [[Hh [Hl _]] _].
   unfold rrun in H. specialize (Hh cr t H).
   apply in_map_iff in Hh. destruct Hh as [[k ok] [Hk Hin]]. cbn [fst] in Hk. subst k.
   specialize (Hl _ Hin). cbn [snd] in Hl. subst ok. exact Hin.
 Qed.
 
-(* a bridge's mapping never changes, whatever the variant and the schedule *)
-Lemma rstep_mid_stable :
-  forall rv d lo sh t b, sh_tun sh t = Some b ->
-    exists b', sh_tun (snd (rstep rv d lo sh)) t = Some b' /\ b_mid b' = b_mid b.
+Lemma race_log_all_entitled :
+  forall d ths sched, Forall starts ths ->
+    forall e, In e (sh_log (fst (rrun fixed_variant d (rinit ths) sched))) -> snd e = true.
 Proof.
-  intros rv d lo sh t b Hb.
-  assert (Hsame : exists b', sh_tun sh t = Some b' /\ b_mid b' = b_mid b) by (exists b; split; [exact Hb | reflexivity]).
-  assert (Hupd : forall b0 bn, sh_tun sh (r_tid (l_req lo)) = Some b0 -> b_mid bn = b_mid b0 ->
-            exists b', upd (sh_tun sh) (r_tid (l_req lo)) (Some bn) t = Some b' /\ b_mid b' = b_mid b).
-  { intros b0 bn Hb0 Hmid. unfold upd. destruct (N.eqb t (r_tid (l_req lo))) eqn:Ht.
-    - apply N.eqb_eq in Ht. subst t. rewrite Hb in Hb0. injection Hb0 as <-. exists bn. split; [reflexivity | exact Hmid].
-    - exact Hsame. }
-  unfold rstep. destruct (l_pc lo); cbn [snd]; try exact Hsame.
-  - destruct (negb (c_registered (l_conn lo))); [exact Hsame|].
-    destruct (negb (validate current d (c_client (l_conn lo)) (l_req lo))); [exact Hsame|].
-    destruct (sh_tun sh (r_tid (l_req lo))) as [b0|] eqn:Hb0; [|exact Hsame].
-    destruct (N.eqb (b_mid b0) (r_mid (l_req lo))); cbn [snd sh_tun]; [|exact Hsame].
-    apply (Hupd b0); [reflexivity|]. destruct (existing d (l_req lo)); reflexivity.
+  intros d ths sched Hths.
+  pose proof (inv_all_schedules shared rlocal (rstep fixed_variant d) (rinv d) (sys_step_inv d) sched (rinit ths) (rinit_inv d ths Hths))
+    as [[_ [Hl _]] _].
+  exact Hl.
+Qed.
+
+(* a bridge OBJECT never changes its mapping, whatever the variant and the schedule: while object g is registered under t it
+   belongs to the mapping it was created for *)
+Definition fresh_ids (sh : shared) : Prop := forall t, sh_tun sh t <> None -> sh_id sh t < sh_next sh.
+
+Lemma rstep_fresh : forall rv d lo sh, fresh_ids sh -> fresh_ids (snd (rstep rv d lo sh)).
+Proof.
+  intros rv d lo sh Hid.
+  assert (Hput : forall b0 bn e, sh_tun sh (r_tid (l_req lo)) = Some b0 -> fresh_ids (put sh (r_tid (l_req lo)) bn e)).
+  { intros b0 bn e Hb0 t Hne. cbn [put sh_tun sh_id sh_next] in *. unfold upd in Hne.
+    destruct (N.eqb t (r_tid (l_req lo))) eqn:Ht; [apply N.eqb_eq in Ht; subst t; apply Hid; rewrite Hb0; discriminate | apply Hid; exact Hne]. }
+  unfold rstep. destruct (l_pc lo); cbn [snd]; try exact Hid.
+  - destruct (negb (c_registered (l_conn lo))); [exact Hid|].
+    destruct (negb (validate current d (c_client (l_conn lo)) (l_req lo))); [exact Hid|].
+    destruct (sh_tun sh (r_tid (l_req lo))) as [b0|]; [|exact Hid].
+    destruct (N.eqb (b_mid b0) (r_mid (l_req lo))); exact Hid.
+  - destruct (sh_tun sh (r_tid (l_req lo))) as [b0|] eqn:Hb0; [|exact Hid].
+    destruct (refetch_existing rv || N.eqb (sh_id sh (r_tid (l_req lo))) (l_gen lo)); cbn [snd]; [apply (Hput b0); reflexivity | exact Hid].
   - destruct (is_listen d (l_conn lo) (l_req lo)).
     + destruct (sh_tun sh (r_tid (l_req lo))) as [b0|] eqn:Hb0.
-      * destruct (source_reattach rv); cbn [snd sh_tun]; [|exact Hsame]. apply (Hupd b0); reflexivity.
-      * cbn [snd sh_tun]. unfold upd. destruct (N.eqb t (r_tid (l_req lo))) eqn:Ht; [|exact Hsame].
-        apply N.eqb_eq in Ht. subst t. rewrite Hb in Hb0. discriminate.
-    + destruct (sh_tun sh (r_tid (l_req lo))) as [b0|] eqn:Hb0; [|exact Hsame].
-      destruct (late_agree rv && negb (N.eqb (b_mid b0) (r_mid (l_req lo)))); cbn [snd sh_tun]; [exact Hsame|].
-      apply (Hupd b0); reflexivity.
+      * destruct (source_reattach rv); cbn [snd]; [apply (Hput b0); reflexivity | exact Hid].
+      * cbn [snd]. intros t Hne. cbn [register sh_tun sh_id sh_next] in *. unfold upd in Hne.
+        destruct (N.eqb t (r_tid (l_req lo))); [lia | specialize (Hid t Hne); lia].
+    + destruct (sh_tun sh (r_tid (l_req lo))) as [b0|] eqn:Hb0; [|exact Hid].
+      destruct (late_agree rv && negb (N.eqb (b_mid b0) (r_mid (l_req lo)))); cbn [snd]; [exact Hid | apply (Hput b0); reflexivity].
+  - intros t Hne. cbn [sh_tun sh_id sh_next] in *. unfold upd in Hne.
+    destruct (N.eqb t (r_tid (l_req lo))); [contradiction Hne; reflexivity | apply Hid; exact Hne].
 Qed.
 
 Lemma race_bridge_mapping_stable :
-  forall rv d sched s t m,
-    (exists b, sh_tun (fst s) t = Some b /\ b_mid b = m) ->
-    exists b, sh_tun (fst (rrun rv d s sched)) t = Some b /\ b_mid b = m.
+  forall rv d sched s g t m,
+    fresh_ids (fst s) -> claim g t m (fst s) ->
+    claim g t m (fst (rrun rv d s sched)).
 Proof.
-  intros rv d sched s t m H.
-  apply (inv_all_schedules shared rlocal (rstep rv d) (fun s => exists b, sh_tun (fst s) t = Some b /\ b_mid b = m)); [|exact H].
-  intros [sh ths] i [b [Hb Hm]]. unfold sys_step. cbn [fst snd] in *.
-  destruct (nth_error ths i) as [lo|]; [|exists b; split; assumption].
-  destruct (rstep_mid_stable rv d lo sh t b Hb) as [b' [Hb' Hm']].
-  destruct (rstep rv d lo sh) as [lo' sh']. cbn [fst snd] in *. exists b'. split; [exact Hb' | congruence].
+  intros rv d sched s g t m Hf Hc.
+  assert (H : fresh_ids (fst (rrun rv d s sched)) /\ claim g t m (fst (rrun rv d s sched))).
+  { apply (inv_all_schedules shared rlocal (rstep rv d) (fun s => fresh_ids (fst s) /\ claim g t m (fst s))); [|split; assumption].
+    intros [sh ths] i [Hf' Hc']. unfold sys_step. cbn [fst snd] in *.
+    destruct (nth_error ths i) as [lo|]; [|split; assumption].
+    pose proof (rstep_fresh rv d lo sh Hf') as H1.
+    pose proof (rstep_keeps_claim rv d lo sh g t m Hf' Hc') as H2.
+    destruct (rstep rv d lo sh) as [lo' sh']. cbn [fst snd] in *. split; assumption. }
+  exact (proj2 H).
 Qed.
 
 (* ---- witnesses -------------------------------------------------------------------------------------------- *)
@@ -177,7 +308,28 @@ Proof. repeat split; vm_compute; reflexivity. Qed.
 
 (* a startSourceBridge that re-attaches to an already registered bridge hands mapping 1's tunnel to mapping 2's listener *)
 Lemma source_reattach_refuted :
-  let s := rrun {| late_agree := true; source_reattach := true |} ex_db2 (rinit [race_A; race_B_listen]) race_sched in
+  let s := rrun {| late_agree := true; source_reattach := true; refetch_existing := false |} ex_db2 (rinit [race_A; race_B_listen]) race_sched in
   sh_tun (fst s) 9 = Some {| b_mid := 1; b_src := Some 2; b_tgt := None |} /\ In (2, 9, false) (sh_log (fst s)).
 Proof. cbv zeta. split; vm_compute; [reflexivity | left; reflexivity]. Qed.
+
+(* bridge replacement: mapping 2's listener owns tunnel 9; its target client's request passes the agreement test on THAT bridge
+   and is about to attach (ack write); the bridge ends; mapping 1's listener registers a NEW bridge under the same id; the attach
+   happens.  Threads: 0 owner (S, mapping 2), 1 B (X, mapping 2), 2 "bridge 9 ends", 3 A (L, mapping 1). *)
+Definition repl_threads : list rlocal := [race_B_listen; request_thread 4 ex_x (ex_req9 2 102); end_thread 9; race_A].
+Definition repl_sched : list nat := [0; 0; 1; 2; 3; 3; 1]%nat.
+
+(* re-fetching tunnelBridges[T] after the ack write WITHOUT re-testing hands mapping 1's tunnel to mapping 2's client *)
+Lemma refetch_existing_refuted :
+  let s := rrun {| late_agree := true; source_reattach := false; refetch_existing := true |} ex_db2 (rinit repl_threads) repl_sched in
+  sh_tun (fst s) 9 = Some {| b_mid := 1; b_src := Some 1; b_tgt := Some 4 |} /\ In (4, 9, false) (sh_log (fst s)).
+Proof. cbv zeta. split; vm_compute; [reflexivity | left; reflexivity]. Qed.
+
+(* attaching to the bridge OBJECT that was tested: the new bridge is left alone (the old object is an orphan) *)
+Lemma replacement_witness :
+  let s := rrun fixed_variant ex_db2 (rinit repl_threads) repl_sched in
+  sh_tun (fst s) 9 = Some {| b_mid := 1; b_src := Some 1; b_tgt := None |} /\
+  sh_log (fst s) = [(1, 9, true); (2, 9, true)] /\
+  (* without the ending the same request IS attached to its own mapping's bridge *)
+  sh_tun (fst (rrun fixed_variant ex_db2 (rinit repl_threads) [0; 0; 1; 1]%nat)) 9 = Some {| b_mid := 2; b_src := Some 2; b_tgt := Some 4 |}.
+Proof. cbv zeta. repeat split; vm_compute; reflexivity. Qed.
 Close Scope N_scope.
